@@ -137,6 +137,25 @@ def defaultP : Kind → Bytes → Bool
   | .passphrase => searchAny Gen.Auth.passphraseBranches
   | .ret => fun _ => false
 
+/-- the patterns in effect for a channel built by a driver: drivers pass `""` and
+    `BaseChannelArgs.__post_init__` (base_channel.py:95-102) substitutes its own copy of the defaults -/
+def driverP : Kind → Bytes → Bool
+  | .username => searchAny Gen.Auth.loginDriverBranches
+  | .password => searchAny Gen.Auth.passwordDriverBranches
+  | .passphrase => searchAny Gen.Auth.passphraseDriverBranches
+  | .ret => fun _ => false
+
+/-- the prologue of a login function (sync_channel.py:282-290, 354-366): counters, buffer and attempts
+    are LOCALS initialised on entry; nothing a previous call left behind is read -/
+def enter (_prev : St) : St := init
+
+/-- several logins on one channel object, one tape each; `prev` = state the previous call ended in -/
+def runSession (c : Cfg) : St → List (List Read) → List St
+  | _, [] => []
+  | prev, t :: ts =>
+    let s := t.foldl (step c) (enter prev)
+    s :: runSession c s ts
+
 /-- configuration of loop `l` with patterns `P`, prompt test `pr`, return interval `ivl` -/
 def cfgOf (l : Loop) (P : Kind → Bytes → Bool) (pr : Bytes → Bool) (ivl : Nat) : Cfg :=
   { P := P, prompt := pr, fatal := fatalMsg,
@@ -146,5 +165,8 @@ def cfgOf (l : Loop) (P : Kind → Bytes → Bool) (pr : Bytes → Bool) (ivl : 
 
 /-- loop `l` with all defaults of BaseChannelArgs -/
 def defaultCfg (l : Loop) (pr : PromptPat) (ivl : Nat) : Cfg := cfgOf l defaultP pr.search ivl
+
+/-- loop `l` on a channel built by a driver with default arguments -/
+def driverCfg (l : Loop) (pr : PromptPat) (ivl : Nat) : Cfg := cfgOf l driverP pr.search ivl
 
 end Scrapli.Auth
